@@ -2,6 +2,7 @@ package lint
 
 import (
 	"fmt"
+	"go/token"
 	"go/types"
 	"strings"
 
@@ -173,10 +174,9 @@ func runC08(c *Ctx) {
 	f = p.Method(pkgCtrlState, "StateAdapter", "checkReadAccess")
 	isOut := "true(call:" + adapterT + ".isOutput(param#0,param#2))"
 	c.mustCutEach("R08.2", "return nil", f, ReturnsNilConst(0), 1, map[string]EdgePred{
-		"output or namespace equal":                        FactEdge(isOut, "eq(*.Namespace,param#1)"),
-		"output or type equal":                             FactEdge(isOut, "eq(*.Type,param#2)"),
-		"output or id rule":                                FactEdge(isOut, "false(call:(github.com/siderolabs/gen/optional.Optional[T]).IsPresent(*.ID))", "eq(*.ID,param#3)"),
-		"output or (kind-wide input or request has an id)": FactEdge(isOut, "false(call:(github.com/siderolabs/gen/optional.Optional[T]).IsPresent(*.ID))", "true(call:(github.com/siderolabs/gen/optional.Optional[T]).IsPresent(param#3))"),
+		"output or namespace equal": FactEdge(isOut, "eq(*.Namespace,param#1)"),
+		"output or type equal":      FactEdge(isOut, "eq(*.Type,param#2)"),
+		"output or id rule":         FactEdge(isOut, "false(call:(github.com/siderolabs/gen/optional.Optional[T]).IsPresent(*.ID))", "eq(*.ID,param#3)"),
 	})
 
 	f = p.Method(pkgCtrlState, "StateAdapter", "checkFinalizerAccess")
@@ -191,6 +191,24 @@ func runC08(c *Ctx) {
 		"kind in {Strong,QPrimary,QMapped}": FactEdge(kinds...),
 		"id rule":                           FactEdge("false(call:(github.com/siderolabs/gen/optional.Optional[T]).IsPresent(*.ID))", "eq(call:(github.com/siderolabs/gen/optional.Optional[T]).ValueOrZero(*.ID),param#3)", "eq(*.ID,*param#3*"),
 	})
+
+	// all four tests have to hold for one and the same declared input: the function walks the input list once
+	if c.NeedFunc("R08.2", f, "StateAdapter.checkFinalizerAccess") {
+		walks := 0
+
+		for _, g := range append([]*ssa.Function{f}, AllClosures(f)...) {
+			for _, in := range Find(g, func(in ssa.Instruction) bool {
+				u, ok := in.(*ssa.UnOp)
+
+				return ok && u.Op == token.MUL && LoadsField(u, "StateAdapter", "Inputs")
+			}) {
+				_ = in
+				walks++
+			}
+		}
+
+		c.Check(walks == 1, "R08.2", FuncName(f)+" :: kind, namespace, type and id are tested on the same input (one walk over the inputs)", fpos(f), "one walk", fmt.Sprintf("the input list is walked %d times: a strong input and a covering input need not be the same one", walks))
+	}
 
 	// ---------- R08.3 exposure
 	c.Rule("R08.3", "E5", "runtime adapters: user callbacks receive the adapter itself; every Reader/Writer/UncachedReader method resolves to StateAdapter's or to an override that only wraps it", 30)
